@@ -19,6 +19,8 @@ claimed = {
          "DESIGN.md §8 C09", TRUST+"crypto/rand/base32 id generation is an assumed contract (some string or an error)."),
  "C10": ("proof", "Ghost log version: every lock section and every command under contract has the postcondition `error ==> log version unchanged`, proved from the real code with validation-before-append; where the real code commits before it validates (set with result, new task with follow-up fields, multi-edge sequence, post-commit reload) the failing clause is a recorded finding whose residual query (clause holds outside the recorded shape) is discharged on every run.",
          "DESIGN.md §8 C10", TRUST+"I/O faults of write primitives and stdout are excluded; plan is not yet under contract."),
+ "C12": ("proof", "For every event list (also hand-merged, reordered, unknown types): every panic-capable instruction of replayEvents/applyTombstone and of the read-side graph functions has a discharged safety obligation (no nil-map write, nil dereference, index out of range), and the replayed graph is well-formed; every comparator feeding list output is proved a strict total order on the sorted items (epics by (created, id): defect repaired, fix: 109c988; tasks by id over distinct ids); list, show, where and prune without --yes are proved to leave the ghost log version and commit counter unchanged and to create no file other than the lock.",
+         "DESIGN.md §8 C12", TRUST+"readEvents' scanner loop and located error text, topoSortTasks and the tree renderer are assumed; time bounds are not expressible."),
  "C14": ("proof", "For all stores: creation with an epic id and epic reassignment are proved to require an existing, unpruned item that is an epic (two genuine defects repaired, fix: 02540a6); epics are never given an epic; the prune policy removes an epic only when every child is finished (and those children are pruned in the same batch).",
          "DESIGN.md §8 C14", TRUST+"plan and the tree builder are not yet under contract."),
  "C16": ("proof", "Ghost output counters: for claim, claim <id>, set, new task, new epic, sequence, prune, compact, show, init it is proved that a successful --json run writes exactly one JSON value and no text to stdout and a failing one at most one JSON object and no text; the create reply (id, state, title, body, epic, kind) equals the appended event.",
@@ -30,7 +32,6 @@ NA={
  "C04":"not yet claimed: needs crash conditions on the multi-event writers; planned (DESIGN.md §7.3)",
  "C05":"not yet claimed: compactEvents round-trip lemma not yet discharged (DESIGN.md §8 C05)",
  "C11":"not yet claimed: RunPlan's section (three loops over a mutable working graph) is not yet under contract",
- "C12":"not yet claimed: replay totality is proved (safety obligations of replayEvents/applyTombstone for every event list) but readEvents, sort determinism and read purity of list are not yet under contract",
  "C13":"not yet claimed: needs the rely/guarantee treatment of readEvents (DESIGN.md §8 C13)",
  "C15":"not yet claimed: progress lemma over the effective waits-for relation not yet written (DESIGN.md §8 C15)",
  "C17":"not yet claimed: identity-dataflow contracts over the input paths not yet written",
